@@ -181,6 +181,9 @@ def rand_call(rng):
 
 
 def run_shard(campaign, shard, nshards, seed, tier):
+    if campaign == 'api':
+        import apiuse
+        return apiuse.run_api('C19', shard, nshards, seed, tier)
     part = Part()
     rng = random.Random('%s/%s/%s' % (seed, campaign, shard))
     quick = tier != 'thorough'
@@ -215,4 +218,6 @@ def run(ctx):
     run_sharded(ctx, 'C19', 'single')
     run_sharded(ctx, 'C19', 'sequences')
     ctx.exhaustive['all set_opts calls with two arguments from the value lists; all set_fc_opts / set_ll_opts calls from the value lists' + (' (every 2nd/3rd in quick)' if ctx.quick else '')] = not ctx.quick
-    return RULE, ASSUME
+    run_sharded(ctx, 'C19', 'api', nshards=2)
+    import apiuse
+    return RULE + apiuse.rule_text('C19'), ASSUME
